@@ -13,6 +13,7 @@ import (
 	"path/filepath"
 	"sort"
 	"sync"
+	"syscall"
 	"time"
 
 	"github.com/btcsuite/btcd/chaincfg/v2"
@@ -103,6 +104,11 @@ type FDB struct {
 	walletdb.DB
 	Fail     bool
 	OnCommit func()
+	// OnCommitW, when set, is called after every committed Update with the
+	// number of index writes of the transaction (Put/Delete of header entries
+	// and tip keys; creating buckets and the sub-bucket marker do not count):
+	// 0 = a commit that is not a durable step of the header stores.
+	OnCommitW func(writes int)
 }
 
 func (d *FDB) Update(f func(tx walletdb.ReadWriteTx) error, reset func()) error {
@@ -110,11 +116,110 @@ func (d *FDB) Update(f func(tx walletdb.ReadWriteTx) error, reset func()) error 
 		d.Fail = false
 		return ErrInjected
 	}
+	if d.OnCommitW != nil {
+		n := 0
+		err := d.DB.Update(func(tx walletdb.ReadWriteTx) error {
+			return f(&cntTx{ReadWriteTx: tx, n: &n})
+		}, reset)
+		if err == nil {
+			if d.OnCommit != nil {
+				d.OnCommit()
+			}
+			d.OnCommitW(n)
+		}
+		return err
+	}
 	err := d.DB.Update(f, reset)
 	if err == nil && d.OnCommit != nil {
 		d.OnCommit()
 	}
 	return err
+}
+
+// cntTx / cntBucket count the index writes of one transaction.
+type cntTx struct {
+	walletdb.ReadWriteTx
+	n *int
+}
+
+func (t *cntTx) wrap(b walletdb.ReadWriteBucket) walletdb.ReadWriteBucket {
+	if b == nil {
+		return nil
+	}
+	return &cntBucket{ReadWriteBucket: b, t: t}
+}
+
+func (t *cntTx) ReadWriteBucket(key []byte) walletdb.ReadWriteBucket {
+	return t.wrap(t.ReadWriteTx.ReadWriteBucket(key))
+}
+
+func (t *cntTx) CreateTopLevelBucket(key []byte) (walletdb.ReadWriteBucket, error) {
+	b, err := t.ReadWriteTx.CreateTopLevelBucket(key)
+	return t.wrap(b), err
+}
+
+type cntBucket struct {
+	walletdb.ReadWriteBucket
+	t *cntTx
+}
+
+func (b *cntBucket) NestedReadWriteBucket(key []byte) walletdb.ReadWriteBucket {
+	return b.t.wrap(b.ReadWriteBucket.NestedReadWriteBucket(key))
+}
+
+func (b *cntBucket) CreateBucket(key []byte) (walletdb.ReadWriteBucket, error) {
+	nb, err := b.ReadWriteBucket.CreateBucket(key)
+	return b.t.wrap(nb), err
+}
+
+func (b *cntBucket) CreateBucketIfNotExists(key []byte) (walletdb.ReadWriteBucket, error) {
+	nb, err := b.ReadWriteBucket.CreateBucketIfNotExists(key)
+	return b.t.wrap(nb), err
+}
+
+func (b *cntBucket) Put(key, value []byte) error {
+	if string(key) != "index-sub-buckets-ready" {
+		*b.t.n++
+	}
+	return b.ReadWriteBucket.Put(key, value)
+}
+
+func (b *cntBucket) Delete(key []byte) error {
+	*b.t.n++
+	return b.ReadWriteBucket.Delete(key)
+}
+
+func (b *cntBucket) Tx() walletdb.ReadWriteTx { return b.t }
+
+// ---------------------------------------------------------------------
+// Observation of a store directory (for start-up crash images: the
+// constructors open their files themselves, so the durable steps they perform
+// are derived from what the directory looks like at every index commit).
+
+// DirObs is what a crash would leave behind, as far as the flat files go.
+type DirObs struct {
+	BSize, FSize int64  // -1 = the file does not exist
+	BIno, FIno   uint64 // inode (a removed and re-created file gets a new one)
+}
+
+func statFile(p string) (int64, uint64) {
+	fi, err := os.Stat(p)
+	if err != nil {
+		return -1, 0
+	}
+	var ino uint64
+	if st, ok := fi.Sys().(*syscall.Stat_t); ok {
+		ino = st.Ino
+	}
+	return fi.Size(), ino
+}
+
+// ObserveDir stats the two flat files of a store directory.
+func ObserveDir(dir string) DirObs {
+	var o DirObs
+	o.BSize, o.BIno = statFile(filepath.Join(dir, "block_headers.bin"))
+	o.FSize, o.FIno = statFile(filepath.Join(dir, "reg_filter_headers.bin"))
+	return o
 }
 
 // ---------------------------------------------------------------------
